@@ -342,7 +342,9 @@ def gen_legacy(g, heavy):
     K = g.randint(3, 6)
     return {"kind": "legacy", "which": g.choice(["esn", "esn", "ridge"]), "N": g.randint(4, 7), "K": K, "lens": [g.randint(8, 16) for _ in range(K)],
             "workers": g.choice([2, 3, -1, 4]), "backend": g.choice(["threading", "threading", "multiprocessing"] + (["loky"] if heavy else [])),
-            "wash": g.choice([0, 0, 2]), "dseed": g.randint(0, 10 ** 6)}
+            "wash": g.choice([0, 0, 2]), "dseed": g.randint(0, 10 ** 6),
+            # the same object has already completed a training on OTHER data: none of it may be counted again
+            "prior": g.chance(0.4)}
 
 
 def run_legacy(c):
@@ -358,23 +360,40 @@ def run_legacy(c):
     Ys = [np.tanh(x.sum(axis=1, keepdims=True)) for x in Xs]
     old = par._BACKEND
     try:
+        prng = np.random.default_rng(c["dseed"] + 1)
+        PX = [prng.uniform(-1, 1, (9, 2)) for _ in range(2)]
+        PY = [np.cos(x.sum(axis=1, keepdims=True)) + 2.0 for x in PX]
         if c["which"] == "esn":
-            def fit(workers):
+            def make(workers, prior):
                 e = ESN(lr=0.5, W=W, Win=Win, input_bias=True, ridge=1e-3)
+                if prior:
+                    e.train(PX, PY, wash_nr_time_step=c["wash"], workers=workers)
+                return e
+
+            def fit(e, workers):
                 e.train(Xs, Ys, wash_nr_time_step=c["wash"], workers=workers)
                 return np.asarray(e.Wout)
         else:
             S = [rng.uniform(-1, 1, (L, N)) for L in c["lens"]]
+            PS = [prng.uniform(-1, 1, (9, N)) for _ in range(2)]
 
-            def fit(workers):
+            def make(workers, prior):
                 m = RidgeRegression(1e-3, workers=workers)
                 m.initialize(N, 1)
+                if prior:
+                    for s_, y_ in zip(PS, PY):
+                        m.partial_fit(s_, y_)
+                    m.fit()
+                return m
+
+            def fit(m, workers):
                 return np.asarray(m.fit(S, Ys))
         par.set_joblib_backend("sequential")
-        Wref = fit(1)
+        Wref = fit(make(1, False), 1)
         par.set_joblib_backend(c["backend"])
+        obj = make(c["workers"], c.get("prior", False))
         with Trace() as tr:
-            Wp = fit(c["workers"])
+            Wp = fit(obj, c["workers"])
             ev = tr.events()
     finally:
         par.set_joblib_backend(old)
@@ -384,6 +403,7 @@ def run_legacy(c):
 def check_legacy(ctx, c):
     ob = f"legacy/{c['which']}"
     ctx.stat(f"legacy {c['which']} workers={c['workers']} backend={c['backend']}")
+    ctx.stat("legacy: object already trained on other data" if c.get("prior") else "legacy: fresh object")
     r = common.exc_class(run_legacy, c)
     if r[0] != "ok":
         if c["backend"] == "multiprocessing" and c["which"] == "esn" and "AttributeError" in str(r[1]):
@@ -393,8 +413,8 @@ def check_legacy(ctx, c):
     o = r[1]
     scale = max(1.0, float(np.max(np.abs(o["Wref"]))))
     if o["W"].shape != o["Wref"].shape or not np.allclose(o["W"], o["Wref"], rtol=0, atol=1e-8 * scale):
-        return ob, [("oracle", f"legacy {c['which']} training with workers={c['workers']} backend={c['backend']} gives a different solution than the "
-                               f"sequential one (max difference {float(np.max(np.abs(o['W'] - o['Wref']))):.3g})")]
+        return ob, [("oracle", f"legacy {c['which']} training with workers={c['workers']} backend={c['backend']} {'on an object that had completed a training on other data before ' if c.get('prior') else ''}gives a different solution than the "
+                               f"sequential one on a fresh object (max difference {float(np.max(np.abs(o['W'] - o['Wref']))):.3g})")]
     return ob, analyse_trace(ctx, o["events"], c["K"], f"legacy {c['which']} workers={c['workers']} backend={c['backend']}")
 
 
